@@ -32,7 +32,7 @@ def plan(tier):
 
 def floors(tier):
     return {"nontrivial": 40, "held:main": 150, "counter:exact_runs": 150, "counter:tau_runs": 150, "counter:rows_checked": 3000,
-            "counter:intervals_checked": 3000, "counter:empty_paths": 10, "counter:states_only_runs": 80, "counter:grids_past_extinction": 20,
+            "counter:intervals_checked": 3000, "counter:empty_paths": 10, "counter:states_only_runs": 80, "counter:unordered_grids_refused": 20, "counter:grids_past_extinction": 20,
             "class:grid-integer-typed": 30, "class:grid-list": 30, "class:grid-tuple": 30, "class:grid-ndarray": 30, "class:grid-random": 50, "class:grid-uniform": 50,
             "class:single-event": 5, "class:single-state": 5,
             "reach:SimulateOde._extractObservationAtTime": 300, "reach:SimulateOde._addJumpsBetweenTime": 300}
@@ -209,6 +209,35 @@ def run_case(rng, idx, tier, lane, ctx):
                                             "time": float(g[k]), "got": Xg[k].tolist(), "expected": rows[k].tolist(), "grid": g.tolist()})
         if wit:
             break
+    # ---- a grid that is not in increasing order (two times transposed) has no consistent reading: the call must either refuse it or
+    # return output that satisfies the same clauses (rows = state of the path at each requested time, rows differ by V.counts)
+    if not wit and len(g) >= 4 and rng.random() < 0.3:
+        gu = g.copy()
+        k_ = rng.randrange(1, len(gu) - 2)
+        gu[k_], gu[k_ + 1] = gu[k_ + 1], gu[k_]
+        cfg3 = {"exact": True, "n": 1, "seed": np_seed(rng), "pre_tau": None, "epsilon": None, "unordered_grid": gu.tolist()}
+        gu_arg = gu.tolist() if form == "list" else (tuple(gu.tolist()) if form == "tuple" else gu)
+        from verifkit.mon.probes import SimProbe, StepCap
+        import contextlib
+        import io
+        np.random.seed(cfg3["seed"])
+        probe = SimProbe()
+        try:
+            with probe, contextlib.redirect_stdout(io.StringIO()):
+                outu = m.solve_stochast(gu_arg, 1, exact=True, full_output=True)
+            counters["unordered_grids_accepted"] = counters.get("unordered_grids_accepted", 0) + 1
+            Xu, Ju = np.asarray(outu[0][0], dtype=float), np.asarray(outu[1][0], dtype=float)
+            raw = probe.paths[0]
+            rowsu, _c, on_grid = reference_grid(raw, gu, nE, True)
+            if not on_grid and Xu.shape == rowsu.shape:
+                if not np.array_equal(Xu, rowsu):
+                    wit.append({"what": "an unordered grid was accepted and a returned row is not the state of the path at its requested time", "config": cfg3})
+                elif Ju.shape == (len(gu) - 1, nE) and not np.array_equal(np.diff(Xu, axis=0), Ju.dot(V.T)):
+                    wit.append({"what": "an unordered grid was accepted and consecutive rows do not differ by state-change matrix x interval counts", "config": cfg3})
+        except StepCap:
+            pass
+        except Exception:
+            counters["unordered_grids_refused"] = counters.get("unordered_grids_refused", 0) + 1
     sample = {"spec": spec, "theta": theta, "x0": x0, "grid": g.tolist(), "grid_form": form, "configs": configs}
     res = {"status": "violated" if wit else "held", "nontrivial": nontriv, "key": canon_hash(sample), "classes": sorted(set(cls)),
            "counters": counters, "sample": sample}
